@@ -312,7 +312,12 @@ def _gen_comb(rng, tier):
     if tier == "thorough" and rng.random() < 0.03:
         maxiter = rng.choice([10, 20, 37])
     draws = rng.choice(["real", "real", "coarse", "coarse", "zero-u", "zero-z"])
-    return dict(kind=kind, members=ms, cat=cat, x=x, xkind=xkind, maxiter=maxiter, draws=draws, dseed=rng.randrange(10 ** 9))
+    c = dict(kind=kind, members=ms, cat=cat, x=x, xkind=xkind, maxiter=maxiter, draws=draws, dseed=rng.randrange(10 ** 9))
+    if rng.random() < 0.35:
+        # the SAME combined constraint object is called again on further inputs: every call must behave like a first call
+        c["more"] = [[_g(rng) for _ in range(ln)] if xkind in ("list", "array") else [rng.randint(-3, 3) for _ in range(ln)]
+                     for _ in range(rng.choice([1, 2, 3]))]
+    return c
 
 
 def _vecfun(rng, ln):
@@ -362,6 +367,9 @@ def _gen_penalty(rng):
                 x[c[1]] = c[2]
     else:
         d["members"] = [mk() for _ in range(rng.choice([0, 1, 2, 2, 3, 4]))]
+        for m in d["members"]:
+            if rng.random() < 0.35:
+                m["plain"] = True
         d["ptype"] = rng.choice([None, None] + PT_NAMES)
         d["k"] = rng.choice([None, None, 1, 3, 0.25])
         if rng.random() < 0.5:   # make zero member penalties frequent
@@ -476,23 +484,30 @@ def _run_comb(case):
     if case["kind"] == "and": comb = C.and_(*members, **kw)
     elif case["kind"] == "or": comb = C.or_(*members, **kw)
     else: comb = C.not_(members[0], **kw)
-    d = _Draws(case["draws"], case["dseed"])
-    x = _input(case)
-    x_before = _fl(x)
-    saved = (rnd.randint, rnd.random)
-    rnd.randint, rnd.random = d.randint, d.random
-    out = dict(fired=fired)
-    try:
+    def one(xs, k):
+        d = _Draws(case["draws"], case["dseed"] + k)
+        x = _input(dict(case, x=xs))
+        x_before = _fl(x)
+        del fired[:]; ncalls[0] = 0
+        saved = (rnd.randint, rnd.random)
+        rnd.randint, rnd.random = d.randint, d.random
+        out = dict()
         try:
-            res = comb(x)
-            out["result"] = _fl(res)
-        except (ZeroDivisionError, TypeError, ValueError, IndexError) as e:
-            out["raised"] = type(e).__name__
-    finally:
-        rnd.randint, rnd.random = saved
-    out["draws"] = d.log
-    out["calls"] = ncalls[0]
-    out["input_unchanged"] = (_fl(x) == x_before)
+            try:
+                res = comb(x)
+                out["result"] = _fl(res)
+            except (ZeroDivisionError, TypeError, ValueError, IndexError) as e:
+                out["raised"] = type(e).__name__
+        finally:
+            rnd.randint, rnd.random = saved
+        out["fired"] = list(fired)
+        out["draws"] = d.log
+        out["calls"] = ncalls[0]
+        out["input_unchanged"] = (_fl(x) == x_before)
+        return out
+    out = one(case["x"], 0)
+    if case.get("more"):
+        out["more"] = [one(xs, k + 1) for k, xs in enumerate(case["more"])]
     return out
 
 
@@ -542,7 +557,13 @@ def _mk_pen(m):
     cond = _cond(m["cond"])
     if m["pt"] is None:
         return cond
-    return getattr(P, m["pt"])(cond, k=m["k"])(lambda x: 0.)
+    pen = getattr(P, m["pt"])(cond, k=m["k"])(lambda x: 0.)
+    if m.get("plain"):
+        # a user-written penalty: a plain function without the attributes (ptype, iter, ...) of a mystic.penalty, same values
+        def plain(x, _p=pen):
+            return _p(x)
+        return plain
+    return pen
 
 
 def _run_penalty(case):
@@ -702,7 +723,11 @@ def oracle(case, obs):
         return [_fail("no-crash", "harness-or-" + case["kind"], obs["__exception__"], obs.get("__msg__"))]
     k = case["kind"]
     if k in ("and", "or", "not"):
-        return _oracle_comb(case, obs)
+        f = _oracle_comb(case, obs)
+        for j, (xs, o) in enumerate(zip(case.get("more", []), obs.get("more", []))):
+            for q in _oracle_comb(dict(case, x=xs), o):
+                q = dict(q); q["detail"] = dict(call=j + 2, x=xs, detail=q.get("detail")); f.append(q)
+        return f
     if k == "coupler":
         return _oracle_coupler(case, obs)
     return _oracle_penalty(case, obs)
@@ -855,7 +880,7 @@ def coq_terms(case, obs):
         return []
     k = case["kind"]
     if k in ("and", "or", "not"):
-        return [_comb_term(case, obs)]
+        return [_comb_term(case, obs)] + [_comb_term(dict(case, x=xs), o) for xs, o in zip(case.get("more", []), obs.get("more", []))]
     if k == "coupler":
         return [_coupler_term(case, obs)]
     return _penalty_terms(case, obs)
@@ -890,6 +915,7 @@ def classify(case, obs):
             tags.append("%s:%s:%s" % (k, obs["fired"][0][0], "with-draws" if obs.get("draws") else "no-draws"))
         nd = len(obs.get("draws", []))
         tags.append("ndraws:" + ("0" if nd == 0 else "1-8" if nd <= 8 else "9-64" if nd <= 64 else ">64"))
+        tags.append("repeated-calls:%d" % len(case.get("more", [])))
         if any(member_may_raise(m) for m in case["members"]):
             tags.append("has-raising-member")
         if k == "and" and all(member_idempotent(m) for m in case["members"]):
@@ -900,6 +926,8 @@ def classify(case, obs):
         nontrivial = len(case["x"]) >= 1
     else:
         tags += ["penalty:" + case["which"], "ptype:" + str(case["ptype"])]
+        if case["which"] != "not":
+            tags.append("plain-members:%s" % ("some" if any(m.get("plain") for m in case["members"]) else "none"))
         if "value" in obs:
             tags.append("penalty:%s:%s" % (case["which"], "zero" if obs["value"] == 0 else "positive"))
         nontrivial = case["which"] == "not" or len(case.get("members", [])) >= 2
@@ -919,7 +947,11 @@ def shrink(case):
                 yield dict(case, members=ms[:i] + [dict(m, ops=m["ops"][:j] + m["ops"][j + 1:])] + ms[i + 1:])
             if m.get("ret") == "array":
                 yield dict(case, members=ms[:i] + [dict(m, ret="list")] + ms[i + 1:])
-        if case["x"]:
+        if case.get("more"):
+            yield {k2: v for k2, v in case.items() if k2 != "more"}
+            for j in range(len(case["more"])):
+                yield dict(case, more=case["more"][:j] + case["more"][j + 1:])
+        if case["x"] and not case.get("more"):
             yield dict(case, x=case["x"][:-1])
         if case.get("xkind") != "list":
             yield dict(case, xkind="list", x=[float(v) for v in case["x"]])
